@@ -122,6 +122,7 @@ def _drop_flag_guard(b, t):
 @rule('C06', 'R-C06-2', 'MUST-PASS (no empty batch)',
       'every Some(batch) is reached only with at least one item in it')
 def r2(ctx):
+    from rules.common import emptiness_at
     bb, bf = _bodies(ctx)
     _remember_types(bf)
     pushes = [t for t in bf.calls(r'Vec::push$') if match(sym(bf, t.args[0]), _var('items'))]
@@ -133,13 +134,13 @@ def r2(ctx):
             continue
         first = v[3][0]
         if first[0] == 'agg' and first[2].endswith('Option::Some'):
-            nonempty = any(pol is False and match(tt, Call('Vec::is_empty', _var('items'))) for tt, pol, g in atoms_at(bf, blk))
+            nonempty = emptiness_at(bf, blk, lambda c: match(c, _var('items'))) is False
             ctx.require(nonempty and match(first[3][0], _var('items')), bf, 'some-nonempty',
                         'Some(items) at line %d is returned only under !items.is_empty()' % bf.blocks[blk].term.span['line'],
                         'Some(items) at line %d can be returned with an empty vector' % bf.blocks[blk].term.span['line'],
                         bf.blocks[blk].term.span)
         elif first[0] == 'agg' and first[2].endswith('Option::None'):
-            empty = any(pol is True and match(tt, Call('Vec::is_empty', _var('items'))) for tt, pol, g in atoms_at(bf, blk))
+            empty = emptiness_at(bf, blk, lambda c: match(c, _var('items'))) is True
             ctx.require(empty and v[3][1][0] == 'agg' and v[3][1][2].endswith('Option::None'), bf, 'none-only-empty',
                         '(None, None) is returned only when no item was collected (nothing is lost)',
                         '(None, ..) is returned although items may have been collected: they are dropped', bf.blocks[blk].term.span)
@@ -147,7 +148,7 @@ def r2(ctx):
     for v, blk in ret_values(bb):
         if v[0] == 'agg' and v[2].endswith('Option::Some'):
             inner = init_value(bb, v[3][0])
-            if has(inner, Call('Vec::splice')):
+            if has(inner, Call('Vec::splice')) or has(inner, Call('Vec::drain')):
                 continue
             nonempty = any(pol is False and match(tt, Call('Vec::is_empty', ('arg', 2, ANY))) for tt, pol, g in atoms_at(bb, blk))
             pops = [s for s in walk(inner) if isinstance(s, tuple) and s and s[0] == 'unwrap' and match(s[1], Call('Vec::pop', ANY))]
@@ -273,7 +274,12 @@ def r4(ctx):
         pb = [t for t in bb.calls(r'Vec::push$') if match(sym(bb, t.args[0]), ('arg', 2, ANY)) and
               match(nosite(core(sym(bb, t.args[1]))), ('field', Pred(lambda u: nosite(u) == res), 1))]
         ok = len(pb) == 1
-        if ok:
+        # `buf.extend(remainder)`: an Option yields its payload or nothing, so this is the push under Some without a branch
+        ext = [t for t in bb.calls(r'Extend>::extend$|Vec::extend$') if match(sym(bb, t.args[0]), ('arg', 2, ANY)) and
+               match(nosite(core(sym(bb, t.args[1]))), ('field', Pred(lambda u: nosite(u) == res), 1))]
+        if not pb and len(ext) == 1:
+            ok = all(cfg.must_pass(bb, c.bb, r, via_blocks=[ext[0].bb], from_succ=True) for r in bb.returns if r in cfg.reach(bb, c.bb))
+        elif ok:
             # every path from the call to a return passes the push or the None edge of the remainder
             none_edges = [(g.block, g.target) for g in edge_guards(bb)
                           if g.t[0] == 'discr' and match(nosite(g.t[1]), ('field', Pred(lambda u: nosite(u) == res), 1))
@@ -308,6 +314,20 @@ def r4(ctx):
         ok = len(push) == 1 and bool(some) and all(cfg.must_pass(bb, some[0], l, via_blocks=[push[0].bb]) for l in fl[0].latches) and \
             nosite(core(sym(bb, push[0].args[1]))) == nosite(core(('unwrap', sym(bb, pull.dest))))
     ctx.require(ok, bb, 'fill-loop', 'every item pulled while filling is pushed to the buffer', None)
+    # the pull is from the source itself: an adaptor with a look-ahead buffer (peekable, multipeek, tuple_windows, chunks, ..) created
+    # over the borrowed source inside build_batch takes items out of the source that die with the adaptor at the end of the call
+    for t in bb.calls(r'::next$|::peek$|::next_if$|::peek_mut$'):
+        if not any(t.bb in l.blocks for l in fl):
+            continue
+        recv = init_value(bb, sym(bb, t.args[0]))
+        chain = [x[1].rsplit('::', 1)[-1] for x in walk(recv) if isinstance(x, tuple) and x and x[0] == 'call']
+        buffering = [n_ for n_ in chain if n_ in ('peekable', 'multipeek', 'peek_nth', 'tuple_windows', 'chunks', 'batching', 'put_back', 'put_back_n', 'tee', 'fuse_chunks')]
+        rooted = has(core(recv), ('arg', 1, ANY)) or has(recv, ('arg', 1, ANY))
+        if not rooted:
+            continue
+        ctx.require(not buffering, bb, 'fill-pulls-source', 'the fill loop pulls from the source iterator itself (line %d)' % t.span['line'],
+                    'the fill loop pulls through `%s` created inside build_batch over the borrowed source (line %d): an item the adaptor has taken out of the source '
+                    'for look-ahead is dropped with the adaptor when build_batch returns -- it reaches no batch' % ('/'.join(buffering), t.span['line']), t.span)
     # progress: with an empty buffer the fill loop pulls at least one item
     if len(fl) == 1:
         conds = [g for g in edge_guards(bb) if g.block in fl[0].blocks and g.target in fl[0].blocks and g.atom()[1] is True and
@@ -374,6 +394,17 @@ def r5(ctx):
     ctx.require(ok, bb, 'stable-sort', 'buffer is sorted with the stable sort_by_key(|a| a.size())', None)
 
 
+def _removed_range(tree):
+    """the call that takes a range of items out of a vector and yields them: `v.splice(r, <empty>)` or `v.drain(r)` ->
+    (vector tree, range tree, True when nothing is put back in their place)"""
+    for s_ in walk(tree):
+        if isinstance(s_, tuple) and s_ and s_[0] == 'call' and s_[1].endswith('Vec::splice') and len(s_[2]) == 3:
+            return s_[2][0], s_[2][1], bool(match(s_[2][2], Call('Vec::new')))
+        if isinstance(s_, tuple) and s_ and s_[0] == 'call' and s_[1].endswith('Vec::drain') and len(s_[2]) == 2:
+            return s_[2][0], s_[2][1], True
+    return None
+
+
 @rule('C06', 'R-C06-6', 'T3c PROGRESS',
       'every Some(batch) of build_batch removed at least one item from the iterator or the buffer; the random '
       'sub-sequence is chosen among the computed candidates and spliced out of the buffer')
@@ -388,7 +419,7 @@ def r6(ctx):
             # the batch is chosen among several values (a helper's two results): judge each alternative
             for a_ in alts_:
                 av = init_value(bb, a_.value)
-                if has(av, Call('Vec::splice')):
+                if _removed_range(av) is not None and _removed_range(av)[2] and match(_removed_range(av)[0], ('arg', 2, ANY)):
                     ctx.ok(bb, 'alternative batch: spliced sub-sequence', bb.blocks[blk].term.span)
                 elif any(isinstance(x, tuple) and x and x[0] == 'call' and x[1].endswith('into_vec') or (isinstance(x, tuple) and x and x[0] == 'call' and 'box' in x[1]) for x in walk(av)):
                     pops = [t for t in bb.calls(r'Vec::pop$') if match(sym(bb, t.args[0]), ('arg', 2, ANY))]
@@ -397,10 +428,10 @@ def r6(ctx):
                     ctx.fail(bb, 'fallback-pops', 'a returned batch is %s' % show_in(bb, av)[:100], bb.blocks[blk].term.span)
             continue
         inner = init_value(bb, v[3][0])
-        if has(inner, Call('Vec::splice')):
-            sp = [s for s in walk(inner) if isinstance(s, tuple) and s and s[0] == 'call' and s[1].endswith('Vec::splice')][0]
-            rng_ = core(sp[2][1])
-            ok = match(sp[2][0], ('arg', 2, ANY)) and rng_[0] == 'agg' and rng_[2].endswith('Range::Range')
+        if _removed_range(inner) is not None:
+            rm = _removed_range(inner)
+            rng_ = core(rm[1])
+            ok = match(rm[0], ('arg', 2, ANY)) and rng_[0] == 'agg' and rng_[2].endswith('Range::Range')
             if ok:
                 lo, hi = rng_[3]
                 ok = match(lo, ('field', ('index', Cap('subs'), Cap('i')), 0)) and match(hi, ('field', ('index', Cap('subs2'), Cap('i2')), 1))
@@ -412,7 +443,7 @@ def r6(ctx):
             ctx.require(ok, bb, 'subsequence-choice', 'batch = buf.splice(subs[i].0 .. subs[i].1) with i = rng.random_range(0..subs.len())',
                         'sub-sequence batch is %s' % show_in(bb, inner), bb.blocks[blk].term.span)
             # the replacement is empty and the result is collected
-            ok2 = match(sp[2][2], Call('Vec::new')) and match(inner, Call('Iterator::collect', ANY))
+            ok2 = rm[2] and match(inner, Call('Iterator::collect', ANY))
             ctx.require(ok2, bb, 'splice-removes', 'the chosen range is removed from the buffer (replaced by nothing) and collected', None)
         else:
             # `vec![buf.pop().unwrap()]`: the element is written through the box pointer; locate the pop by dominance
@@ -460,3 +491,50 @@ def r7(ctx):
         at2 = [(core(tt), pol) for tt, pol, g in atoms_at(bb, t.bb) if pol is not None]
         # a later batch_from must not be reachable with both flags false: reach_const with the two flags set to false
         pass
+
+
+@rule('C06', 'R-C06-8', 'T2 CHAIN (the size tested against the limit is the size of that window)',
+      'find_subsequences_of_max_size_k compares with k only values that are `size_fn(&values[a..b])` of one window: the padded batch size '
+      '(count x largest item) handed in by build_batch is not additive, so a size assembled from the previous size plus the size of '
+      'the new element under-estimates the window and batches over the limit are emitted')
+def r8(ctx):
+    from analysis.alts import value_alts
+    b = ctx.body('utils::find_subsequences_of_max_size_k')
+    n = 0
+    APPLY = Call('::call', ('arg', 3, ANY), ('agg', 'tuple', ANY, (Pred(lambda u: has(core(u), ('arg', 1, ANY)) and core(u)[0] in ('call', 'index')),)))
+    for g in edge_guards(b):
+        t, pol = g.atom()
+        c = peel(t)
+        if pol is None or c[0] != 'bin' or c[1] not in ('Le', 'Lt', 'Ge', 'Gt'):
+            continue
+        for x, k in ((c[2], c[3]), (c[3], c[2])):
+            if not match(core(k), ('arg', 2, ANY)):
+                continue
+            n += 1
+            alts_ = []
+            seen_l = set()
+
+            def gather(tree, depth=0):
+                # every value the compared variable can hold: its definitions, through copies of other variables (loop-carried ones too)
+                for a in value_alts(ctx.facts, b, nosite(tree), expanded=True):
+                    cv = core(a.value)
+                    if cv[0] in ('var', 'phi') and depth < 6:
+                        l = cv[2] if cv[0] == 'var' else cv[1]
+                        if l in seen_l:
+                            continue
+                        seen_l.add(l)
+                        from analysis.sym import defs_of, symbolizer, simplify
+                        whole, partial = defs_of(b, l)
+                        z = symbolizer(b)
+                        for d in whole:
+                            gather(simplify(z.rvalue(d.rv, 0, (l,)) if hasattr(d, 'rv') else z.call(d, 0, (l,))), depth + 1)
+                        continue
+                    alts_.append(a)
+            gather(x)
+            bad = [a for a in alts_ if not match(core(a.value), APPLY)]
+            ctx.require(not bad, b, 'window-size|line', 'the value compared with k at line %d is size_fn of a window of `values`' % b.blocks[g.block].term.span['line'],
+                        'the value compared with k at line %d can be `%s`: not the size function applied to one window (a size that is not additive, like the padded '
+                        'batch size, is then under-estimated and the limit is exceeded)' % (b.blocks[g.block].term.span['line'], show_in(b, bad[0].value)[:160] if bad else ''),
+                        b.blocks[g.block].term.span)
+    if n < 3:
+        raise AnchorMissing('comparisons with k in find_subsequences_of_max_size_k (found %d)' % n)
